@@ -11,6 +11,7 @@
 #include <stdlib.h>
 #include <string.h>
 #include <sys/mman.h>
+#include <sys/time.h>
 #include <unistd.h>
 #include <linux/futex.h>
 #include <sys/syscall.h>
@@ -1159,6 +1160,45 @@ extern "C" int nsim_sys_nanosleep (const struct timespec *req, struct timespec *
 	block_current (F_SLEEP);
 	if (rem) { rem->tv_sec = 0; rem->tv_nsec = 0; }
 	return 0;
+}
+
+extern "C" int nsim_sys_pthread_yield (void) { return nsim_sys_sched_yield (); }
+// other ways a change to nsync might sleep or read the time: all on the virtual clock
+extern "C" int nsim_sys_usleep (unsigned usec) {
+	if (!g.in_run || !g.cur) return ::usleep (usec);
+	struct timespec ts; ts.tv_sec = usec / 1000000; ts.tv_nsec = (long) (usec % 1000000) * 1000;
+	return nsim_sys_nanosleep (&ts, NULL);
+}
+extern "C" unsigned nsim_sys_sleep (unsigned sec) {
+	if (!g.in_run || !g.cur) return ::sleep (sec);
+	struct timespec ts; ts.tv_sec = sec; ts.tv_nsec = 0;
+	nsim_sys_nanosleep (&ts, NULL);
+	return 0;
+}
+extern "C" int nsim_sys_clock_nanosleep (clockid_t clk, int flags, const struct timespec *req, struct timespec *rem) {
+	if (!g.in_run || !g.cur) return ::clock_nanosleep (clk, flags, req, rem);
+	struct timespec ts = *req;
+	if (flags & TIMER_ABSTIME) {
+		int64_t d = (int64_t) req->tv_sec * 1000000000LL + req->tv_nsec - g.now;
+		if (d < 0) d = 0;
+		ts.tv_sec = d / 1000000000LL; ts.tv_nsec = d % 1000000000LL;
+	}
+	nsim_sys_nanosleep (&ts, rem);
+	return 0;
+}
+extern "C" int nsim_sys_gettimeofday (struct timeval *tv, void *tz) {
+	if (!g.in_run || !g.cur) return ::gettimeofday (tv, (struct timezone *) tz);
+	struct timespec ts;
+	nsim_sys_clock_gettime (CLOCK_REALTIME, &ts);
+	if (tv) { tv->tv_sec = ts.tv_sec; tv->tv_usec = ts.tv_nsec / 1000; }
+	return 0;
+}
+extern "C" time_t nsim_sys_time (time_t *t) {
+	if (!g.in_run || !g.cur) return ::time (t);
+	struct timespec ts;
+	nsim_sys_clock_gettime (CLOCK_REALTIME, &ts);
+	if (t) *t = ts.tv_sec;
+	return ts.tv_sec;
 }
 
 // malloc / free / memset from simulated code
